@@ -10,6 +10,8 @@
      "NBSP"            U+00A0, Unicode whitespace (Zs), 2 bytes in UTF-8
      "LAQUO"           U+00AB, Unicode punctuation (Pi), 2 bytes
      "EACUTE"          U+00E9, a letter, 2 bytes
+     "FF" "TAB"        U+000C, U+0009: ASCII characters that are Unicode whitespace without being a space
+     "EMSP"            U+2003 (Zs), 3 bytes;  "EMDASH" U+2014 (Pd), 3 bytes;  "EURO" U+20AC (Sc: a symbol, not punctuation), 3 bytes
    Positions are 1-based character indices; the harness maps them to byte offsets.
 
    Proc        = the procedure WITHOUT the openers_bottom search bound (reference semantics, C11)
@@ -22,9 +24,10 @@ EXTENDS Integers, Sequences, FiniteSets, TLC, Json
 
 CONSTANTS Alphabet, MaxLen
 
-Class(c) == CASE c = " " -> "ws"
-              [] c = "NBSP" -> "ws"
-              [] c \in {"*", "_", ".", "LAQUO"} -> "punct"
+\* Unicode whitespace (section 2.1): Zs, tab, line feed, form feed, carriage return. Unicode punctuation: ASCII punctuation or
+\* the general categories Pc Pd Pe Pf Pi Po Ps - a currency sign (Sc) is NOT punctuation in 0.30.
+Class(c) == CASE c \in {" ", "NBSP", "FF", "TAB", "EMSP"} -> "ws"
+              [] c \in {"*", "_", ".", "LAQUO", "EMDASH"} -> "punct"
               [] OTHER -> "other"
 IsDelim(c) == c \in {"*", "_"}
 
@@ -127,10 +130,10 @@ Ctx(s, k) == CASE k = 1 -> <<"a">> \o s \o <<"a">>
 OnlyOf(s, set) == \A i \in 1..Len(s) : s[i] \in set
 Count(s, c) == Cardinality({i \in 1..Len(s) : s[i] = c})
 PlainLine(s) == /\ Len(s) > 0
-                /\ s[1] \notin {" ", "NBSP"} /\ s[Len(s)] # " "
-                /\ ~(OnlyOf(s, {"*", " "}) /\ Count(s, "*") >= 3)
-                /\ ~(OnlyOf(s, {"_", " "}) /\ Count(s, "_") >= 3)
-                /\ ~(s[1] = "*" /\ (Len(s) = 1 \/ s[2] = " "))
+                /\ s[1] \notin {" ", "NBSP", "TAB", "FF", "EMSP"} /\ s[Len(s)] \notin {" ", "TAB"}
+                /\ ~(OnlyOf(s, {"*", " ", "TAB"}) /\ Count(s, "*") >= 3)
+                /\ ~(OnlyOf(s, {"_", " ", "TAB"}) /\ Count(s, "_") >= 3)
+                /\ ~(s[1] = "*" /\ (Len(s) = 1 \/ s[2] \in {" ", "TAB"}))
 
 VARIABLES s, res
 vars == <<s, res>>
